@@ -502,7 +502,7 @@ func c35Exec(in *c34In, d2bin string) (res run.Result) {
 	before, _ := c34Snapshot(sb.Root)
 	ro := c34RunD2(d2bin, sb)
 	if ro.Timeout {
-		res.Inconclusive = "d2 did not finish within 240 s"
+		res.Inconclusive = "d2 did not finish within 600 s"
 		return
 	}
 	if ro.Exit != 0 {
